@@ -11,11 +11,11 @@ cmake --build build -j6 2>&1 | tail -2
 ctest --test-dir build -j6 --timeout 900 2>&1 | tail -3 > $sd/ctest_mutated.txt
 cat $sd/ctest_mutated.txt
 lib=$(ls build/lib/libsoplex.a build/lib/libsoplex*.a 2>/dev/null | head -1)
-g++ -std=c++14 -O1 -DNDEBUG -I$wt/src -I$wt/build $sd/demo.cpp $lib -lgmp -lmpfr -lz -o /tmp/demo_mut_$$ || { echo "CONFIRM: demo does not compile (mutated)"; exit 1; }
+g++ -std=c++14 -O1 -DNDEBUG $DEMO_FLAGS -I$wt/src -I$wt/build $sd/demo.cpp $lib -lgmp -lmpfr -lz -pthread -o /tmp/demo_mut_$$ || { echo "CONFIRM: demo does not compile (mutated)"; exit 1; }
 /tmp/demo_mut_$$ > $sd/demo_mutated.txt 2>&1; m=$?
 git checkout -- src
 cmake --build build -j6 2>&1 | tail -2
-g++ -std=c++14 -O1 -DNDEBUG -I$wt/src -I$wt/build $sd/demo.cpp $lib -lgmp -lmpfr -lz -o /tmp/demo_orig_$$ || { echo "CONFIRM: demo does not compile (original)"; exit 1; }
+g++ -std=c++14 -O1 -DNDEBUG $DEMO_FLAGS -I$wt/src -I$wt/build $sd/demo.cpp $lib -lgmp -lmpfr -lz -pthread -o /tmp/demo_orig_$$ || { echo "CONFIRM: demo does not compile (original)"; exit 1; }
 /tmp/demo_orig_$$ > $sd/demo_original.txt 2>&1; o=$?
 rm -f /tmp/demo_mut_$$ /tmp/demo_orig_$$
 set +x
